@@ -166,7 +166,11 @@ CLAIMS["C07"] = {
 }
 CLAIMS["C14"] = {
     "text": "Proved in Lean: the tree produced by the insertion algorithm does not depend on the order of the batch "
-            "(batchInsert_perm, through the refinement to the canonical trie and its uniqueness), under both configurations. The "
+            "(batchInsert_perm, through the refinement to the canonical trie and its uniqueness), nor on its division into "
+            "sub-batches within one epoch (batchInsert_split, batchInsert_split_rootHash: the refinement theorem holds for a tree "
+            "that already contains leaves of the epoch being inserted, batchInsert_refines_sameEpoch), under both configurations; "
+            "reads through the storage manager do not depend on what the cache holds (C16: get_eq_truth, batchGet_eq_truth, "
+            "inv_run). The "
             "model has no notion of task, cache, preload or object lifetime, so 'identical under every configuration' is, on the "
             "model side, the statement that the implementation under EACH configuration corresponds to the ONE model run: the "
             "check executes the same ops stream under an 18-entry matrix (parallelism x cache x restarts x read-only wrapper x "
